@@ -1,20 +1,46 @@
 package kdtree
 
-// C20 (k-d tree): for a tree built by incremental insertion (and in bulk) from
-// points with SYMBOLIC coordinates - so duplicates, collinear points and ties
-// on splitting planes are solver branches - nearest, k-nearest and
-// within-radius queries return the distance multiset of a brute-force scan.
+// C20 (k-d tree). Every harness builds a tree from n points with SYMBOLIC
+// coordinates (so duplicates, collinear points and ties on splitting planes
+// are solver branches) through a HISTORY: the first nb points in bulk with
+// New, the remaining n-nb points one by one with Insert. The query (point,
+// radius, box) is symbolic too. Oracles are brute-force scans written with
+// branch-free selects.
+//
+// Bulk construction draws random pivots (medians.go: Select calls rand.IntN
+// in a loop that only terminates with probability one). The harness replaces
+// rand.IntN by a case split over every value of its contract and prunes
+// histories that need more than `kddraws` draws in one New call: a finite,
+// exhaustive exploration of all pivot sequences up to that length.
 
-func verifC20Points(n, dim int) Points {
+// verifC20Points returns the query q and n points p_i = q + u_i with q and all
+// u_i symbolic: a bijective reparametrisation of "all points and the query
+// symbolic" (every configuration is still reachable) under which the
+// polynomial constraints the solver sees (differences of coordinates) do not
+// mention q at all - two real variables less per query in dimension 2.
+// q == nil gives plain independent coordinates.
+func verifC20Points(n, dim int, q Point) Points {
 	pts := make(Points, n)
 	for i := range pts {
 		p := make(Point, dim)
 		for d := range p {
-			p[d] = verifFloat("p" + string(rune('0'+i)) + string(rune('x'+d)))
+			v := verifFloat("p" + string(rune('0'+i)) + string(rune('x'+d)))
+			if q != nil {
+				v += q[d]
+			}
+			p[d] = v
 		}
 		pts[i] = p
 	}
 	return pts
+}
+
+func verifC20Query(name string, dim int) Point {
+	q := make(Point, dim)
+	for d := range q {
+		q[d] = verifFloat(name + string(rune('x'+d)))
+	}
+	return q
 }
 
 func verifC20Dist(p, q Point) float64 {
@@ -25,96 +51,419 @@ func verifC20Dist(p, q Point) float64 {
 	return s
 }
 
-func verifC20Tree(pts Points, bulk bool) *Tree {
-	if bulk {
-		cp := make(Points, len(pts))
-		copy(cp, pts)
-		return New(cp, false)
-	}
-	var t Tree
-	for _, p := range pts {
-		t.Insert(p, false)
-	}
-	return &t
+// verifC20Same reports whether a and b are the same stored point (identity of
+// the backing array, not equality of coordinates: duplicates are distinct).
+func verifC20Same(a, b Point) bool { return &a[0] == &b[0] }
+
+// histories: 0 = Insert only, 1 = bulk only, 2 = bulk of 1..n-1 points followed by Inserts.
+const (
+	verifC20Insert = iota
+	verifC20Bulk
+	verifC20Mixed
+)
+
+func verifC20StubRand() {
+	max := verifParam("kddraws", 4)
+	draws := 0
+	verifStubFunc("math/rand/v2.IntN", func(n int) int {
+		draws++
+		verifAssume(draws <= max)
+		return verifChoose("rnd", 0, n-1)
+	})
 }
 
-// within-radius: the keeper holds exactly the points with dist^2 <= r2
-// (compared as a multiset of distances through counts of each point).
-func verifC20Radius(bulk bool) {
-	n := verifChoose("n", 1, verifParam("kdn", 3))
-	dim := verifChoose("dim", 1, verifParam("kddim", 2))
-	pts := verifC20Points(n, dim)
-	q := make(Point, dim)
-	for d := range q {
-		q[d] = verifFloat("q" + string(rune('x'+d)))
+// verifC20Tree builds the tree for the chosen history. It returns the tree.
+func verifC20Tree(pts Points, hist int, bounding bool) *Tree {
+	n := len(pts)
+	nb := 0
+	switch hist {
+	case verifC20Bulk:
+		nb = n
+	case verifC20Mixed:
+		nb = verifChoose("nbulk", 1, n-1)
 	}
-	r2 := verifFloat("r2")
-	verifAssume(r2 >= 0)
-	t := verifC20Tree(pts, bulk)
-	keep := NewDistKeeper(r2)
-	t.NearestSet(keep, q)
-	// number of kept entries
-	got := 0
-	for _, c := range keep.Heap {
-		if c.Comparable != nil {
-			got++
-		}
+	var t *Tree
+	if nb == 0 {
+		t = &Tree{}
+	} else {
+		verifC20StubRand()
+		cp := make(Points, nb)
+		copy(cp, pts[:nb])
+		t = New(cp, bounding)
 	}
-	want := 0
-	for _, p := range pts {
-		want += verifIteInt(verifC20Dist(p, q) <= r2, 1, 0)
+	for _, p := range pts[nb:] {
+		t.Insert(p, bounding)
 	}
-	verifAssert(got == want, "within-radius query returns as many points as the brute-force scan")
-	for _, c := range keep.Heap {
-		if c.Comparable == nil {
-			continue
-		}
-		verifAssert(c.Dist <= r2, "every returned point lies within the radius")
-		verifAssertEqF(c.Dist, verifC20Dist(c.Comparable.(Point), q), "reported distance is the squared distance of the returned point")
-	}
-	verifReach("end")
+	return t
 }
 
-func VerifC20_KDRadiusInsert() { verifC20Radius(false) }
-func VerifC20_KDRadiusBulk()   { verifC20Radius(true) }
-
-// nearest: the reported distance is the minimum over all points.
-func verifC20Nearest(bulk bool) {
-	n := verifChoose("n", 1, verifParam("kdn", 3))
-	dim := verifChoose("dim", 1, verifParam("kddim", 2))
-	pts := verifC20Points(n, dim)
-	q := make(Point, dim)
-	for d := range q {
-		q[d] = verifFloat("q" + string(rune('x'+d)))
+func verifC20Setup(hist int, query bool) (n, dim int, pts Points, q Point) {
+	lo := 1
+	if hist == verifC20Mixed {
+		lo = 2
 	}
-	t := verifC20Tree(pts, bulk)
+	if m := verifParam("kdnmin", 1); m > lo {
+		lo = m
+	}
+	n = verifChoose("n", lo, verifParam("kdn", 3))
+	dim = verifChoose("dim", verifParam("kddimmin", 1), verifParam("kddim", 2))
+	if query {
+		q = verifC20Query("q", dim)
+	}
+	return n, dim, verifC20Points(n, dim, q), q
+}
+
+// verifC20Sorted returns the brute-force squared distances in ascending order
+// (odd-even transposition network of branch-free compare-exchanges).
+func verifC20Sorted(pts Points, q Point) []float64 {
+	d := make([]float64, len(pts))
+	for i, p := range pts {
+		d[i] = verifC20Dist(p, q)
+	}
+	for pass := 0; pass < len(d); pass++ {
+		for i := pass % 2; i+1 < len(d); i += 2 {
+			a, b := d[i], d[i+1]
+			sw := b < a
+			d[i] = verifIteF(sw, b, a)
+			d[i+1] = verifIteF(sw, a, b)
+		}
+	}
+	return d
+}
+
+// verifC20Stored: c is one of the points given to the tree.
+func verifC20Stored(c Comparable, pts Points) bool {
+	p, ok := c.(Point)
+	if !ok {
+		return false
+	}
+	is := false
+	for _, s := range pts {
+		is = verifOr(is, verifC20Same(p, s))
+	}
+	return is
+}
+
+// ---- Nearest ---------------------------------------------------------------
+
+func verifC20Nearest(hist int) {
+	_, _, pts, q := verifC20Setup(hist, true)
+	t := verifC20Tree(pts, hist, false)
 	got, dist := t.Nearest(q)
+	verifAssert(verifC20Stored(got, pts), "Nearest returns one of the stored points")
 	verifAssertEqF(dist, verifC20Dist(got.(Point), q), "Nearest reports the squared distance of the point it returns")
 	for _, p := range pts {
 		verifAssert(dist <= verifC20Dist(p, q), "Nearest distance is minimal over all points")
 	}
-	// k-nearest with k = 2
-	if n >= 2 {
-		nk := NewNKeeper(2)
-		t.NearestSet(nk, q)
+	verifReach("end")
+}
+
+func VerifC20_KDNearestInsert() { verifC20Nearest(verifC20Insert) }
+func VerifC20_KDNearestBulk()   { verifC20Nearest(verifC20Bulk) }
+func VerifC20_KDNearestMixed()  { verifC20Nearest(verifC20Mixed) }
+
+// ---- k nearest ---------------------------------------------------------------
+
+// verifC20Kept checks a keeper after NearestSet: entries ascending and equal to
+// the prefix of the sorted brute-force distances, every entry a stored point
+// with its own squared distance, no sentinel left.
+func verifC20Kept(h Heap, want int, pts Points, q Point) {
+	verifAssert(len(h) == want, "NearestSet keeps as many points as the brute-force scan selects")
+	sorted := verifC20Sorted(pts, q)
+	for i, c := range h {
+		if i >= len(sorted) {
+			break
+		}
+		verifAssert(verifC20Stored(c.Comparable, pts), "every kept entry is a stored point (no sentinel)")
+		if p, ok := c.Comparable.(Point); ok {
+			verifAssertEqF(c.Dist, verifC20Dist(p, q), "kept distance is the squared distance of the kept point")
+		}
+		verifAssertEqF(c.Dist, sorted[i], "i-th kept distance is the i-th smallest brute-force distance")
+	}
+}
+
+func verifC20KNearest(hist int) {
+	n, _, pts, q := verifC20Setup(hist, true)
+	k := verifChoose("k", 1, n+1)
+	t := verifC20Tree(pts, hist, false)
+	keep := NewNKeeper(k)
+	t.NearestSet(keep, q)
+	want := k
+	if n < k {
+		want = n
+	}
+	verifC20Kept(keep.Heap, want, pts, q)
+	verifReach("end")
+}
+
+func VerifC20_KDKNearestInsert() { verifC20KNearest(verifC20Insert) }
+func VerifC20_KDKNearestBulk()   { verifC20KNearest(verifC20Bulk) }
+func VerifC20_KDKNearestMixed()  { verifC20KNearest(verifC20Mixed) }
+
+// ---- within radius -----------------------------------------------------------
+
+func verifC20Radius(hist int) {
+	_, _, pts, q := verifC20Setup(hist, true)
+	r2 := verifFloat("r2")
+	verifAssume(r2 >= 0)
+	t := verifC20Tree(pts, hist, false)
+	keep := NewDistKeeper(r2)
+	t.NearestSet(keep, q)
+	want := 0
+	for _, p := range pts {
+		want += verifIteInt(verifC20Dist(p, q) <= r2, 1, 0)
+	}
+	verifAssert(len(keep.Heap) == want, "within-radius query returns as many points as the brute-force scan")
+	for _, c := range keep.Heap {
+		verifAssert(c.Dist <= r2, "every returned point lies within the radius")
+	}
+	verifC20Kept(keep.Heap, len(keep.Heap), pts, q)
+	verifReach("end")
+}
+
+func VerifC20_KDRadiusInsert() { verifC20Radius(verifC20Insert) }
+func VerifC20_KDRadiusBulk()   { verifC20Radius(verifC20Bulk) }
+func VerifC20_KDRadiusMixed()  { verifC20Radius(verifC20Mixed) }
+
+// ---- bounding boxes, Contains, Len, Do ----------------------------------------
+
+// verifC20In: branch-free "p lies in the closed box b".
+func verifC20In(b *Bounding, p Point) bool {
+	lo, hi := b.Min.(Point), b.Max.(Point)
+	in := true
+	for d := range p {
+		in = verifAnd(in, verifAnd(lo[d] <= p[d], p[d] <= hi[d]))
+	}
+	return in
+}
+
+// verifC20Subtree appends the points stored below nd.
+func verifC20Subtree(nd *Node, dst []Point) []Point {
+	if nd == nil {
+		return dst
+	}
+	dst = verifC20Subtree(nd.Left, dst)
+	dst = append(dst, nd.Point.(Point))
+	return verifC20Subtree(nd.Right, dst)
+}
+
+func verifC20CheckBoxes(nd *Node) {
+	if nd == nil {
+		return
+	}
+	verifAssert(nd.Bounding != nil, "a tree built with bounding=true has a box on every node")
+	if nd.Bounding != nil {
+		for _, p := range verifC20Subtree(nd, nil) {
+			verifAssert(verifC20In(nd.Bounding, p), "a node's bounding box contains every point of its subtree")
+		}
+	}
+	verifC20CheckBoxes(nd.Left)
+	verifC20CheckBoxes(nd.Right)
+}
+
+func verifC20Bounds(hist int) {
+	n, _, pts, _ := verifC20Setup(hist, false)
+	t := verifC20Tree(pts, hist, true)
+	verifAssert(t.Len() == n, "Len is the number of points given to the tree")
+	all := verifC20Subtree(t.Root, nil)
+	verifAssert(len(all) == n, "the tree holds n nodes")
+	for _, p := range pts {
 		cnt := 0
-		var mx float64
-		for _, c := range nk.Heap {
-			if c.Comparable != nil {
-				cnt++
-				mx = verifIteF(c.Dist > mx, c.Dist, mx)
-			}
+		for _, s := range all {
+			cnt += verifIteInt(verifC20Same(p, s), 1, 0)
 		}
-		verifAssert(cnt == 2, "2-nearest query returns two points")
-		// at most one point may be strictly closer than the larger kept distance's complement:
-		closer := 0
-		for _, p := range pts {
-			closer += verifIteInt(verifC20Dist(p, q) < mx, 1, 0)
+		verifAssert(cnt == 1, "every point is stored in exactly one node")
+	}
+	verifC20CheckBoxes(t.Root)
+	for _, p := range pts {
+		verifAssert(t.Contains(p), "Tree.Contains holds for every stored point")
+	}
+	// Do visits every point once and hands out a box that contains it.
+	seen := make([]int, n)
+	calls := 0
+	stopped := t.Do(func(c Comparable, b *Bounding, depth int) bool {
+		calls++
+		cp := c.(Point)
+		for i, p := range pts {
+			seen[i] += verifIteInt(verifC20Same(cp, p), 1, 0)
 		}
-		verifAssert(closer <= 1, "no omitted point is closer than the 2nd nearest returned")
+		if b != nil {
+			verifAssert(verifC20In(b, cp), "the box passed to a Do operation contains the visited point")
+		}
+		return false
+	})
+	verifAssert(!stopped, "Do is not interrupted when the operation never returns true")
+	verifAssert(calls == n, "Do calls the operation once per stored point")
+	for i := range seen {
+		verifAssert(seen[i] == 1, "Do visits each point exactly once")
 	}
 	verifReach("end")
 }
 
-func VerifC20_KDNearestInsert() { verifC20Nearest(false) }
-func VerifC20_KDNearestBulk()   { verifC20Nearest(true) }
+func VerifC20_KDBoundsInsert() { verifC20Bounds(verifC20Insert) }
+func VerifC20_KDBoundsBulk()   { verifC20Bounds(verifC20Bulk) }
+func VerifC20_KDBoundsMixed()  { verifC20Bounds(verifC20Mixed) }
+
+// ---- DoBounded ------------------------------------------------------------------
+
+// DoBounded "performs fn on all values stored in the tree that are within the
+// specified bound": the visited multiset is exactly the points in the closed
+// query box, each once.
+func verifC20DoBounded(hist int) {
+	n, dim, pts, _ := verifC20Setup(hist, false)
+	lo := verifC20Query("lo", dim)
+	hi := verifC20Query("hi", dim)
+	for d := 0; d < dim; d++ {
+		verifAssume(lo[d] <= hi[d])
+	}
+	t := verifC20Tree(pts, hist, verifChoose("bounding", 0, 1) == 1)
+	box := &Bounding{Min: lo, Max: hi}
+	seen := make([]int, n)
+	t.DoBounded(box, func(c Comparable, b *Bounding, depth int) bool {
+		cp := c.(Point)
+		for i, p := range pts {
+			seen[i] += verifIteInt(verifC20Same(cp, p), 1, 0)
+		}
+		return false
+	})
+	for i, p := range pts {
+		verifAssert(seen[i] == verifIteInt(verifC20In(box, p), 1, 0), "DoBounded visits exactly the stored points inside the box, each once")
+	}
+	verifReach("end")
+}
+
+func VerifC20_KDDoBoundedInsert() { verifC20DoBounded(verifC20Insert) }
+func VerifC20_KDDoBoundedBulk()   { verifC20DoBounded(verifC20Bulk) }
+
+// ---- compositional variant: structure invariant + search over every valid tree ----
+//
+// (1) VerifC20_KDInvariant*: every history (Insert, New with any pivot draws,
+//     New followed by Inserts) yields a tree that holds each point exactly
+//     once, whose planes cycle with depth, and in which every point of a
+//     node's Left subtree is <= the node on the node's plane and every point
+//     of its Right subtree is >= the node there.
+// (2) VerifC20_KDSearch*: for EVERY tree shape with n nodes (case split) and
+//     symbolic points that satisfy exactly the invariant of (1), the queries
+//     equal the brute-force scan.
+// Together: the queries are right after every history, without multiplying
+// the query exploration by the number of construction paths.
+
+// verifC20Inv asserts (check=true) or assumes (check=false) the invariant below nd.
+func verifC20Inv(nd *Node, depth, dim int, check bool) {
+	if nd == nil {
+		return
+	}
+	if check {
+		verifAssert(int(nd.Plane) == depth%dim, "planes cycle with depth")
+	}
+	pl := int(nd.Plane)
+	if pl < 0 || pl >= dim {
+		return
+	}
+	np := nd.Point.(Point)
+	for _, x := range verifC20Subtree(nd.Left, nil) {
+		if check {
+			verifAssert(x[pl] <= np[pl], "Left subtree lies on the non-positive side of the node's plane")
+		} else {
+			verifAssume(x[pl] <= np[pl])
+		}
+	}
+	for _, x := range verifC20Subtree(nd.Right, nil) {
+		if check {
+			verifAssert(x[pl] >= np[pl], "Right subtree lies on the non-negative side of the node's plane")
+		} else {
+			verifAssume(x[pl] >= np[pl])
+		}
+	}
+	verifC20Inv(nd.Left, depth+1, dim, check)
+	verifC20Inv(nd.Right, depth+1, dim, check)
+}
+
+func verifC20Invariant(hist int) {
+	n, dim, pts, _ := verifC20Setup(hist, false)
+	t := verifC20Tree(pts, hist, false)
+	verifAssert(t.Len() == n, "Len is the number of points given to the tree")
+	all := verifC20Subtree(t.Root, nil)
+	verifAssert(len(all) == n, "the tree holds n nodes")
+	for _, p := range pts {
+		cnt := 0
+		for _, s := range all {
+			cnt += verifIteInt(verifC20Same(p, s), 1, 0)
+		}
+		verifAssert(cnt == 1, "every point is stored in exactly one node")
+	}
+	verifC20Inv(t.Root, 0, dim, true)
+	verifReach("end")
+}
+
+func VerifC20_KDInvariantInsert() { verifC20Invariant(verifC20Insert) }
+func VerifC20_KDInvariantBulk()   { verifC20Invariant(verifC20Bulk) }
+func VerifC20_KDInvariantMixed()  { verifC20Invariant(verifC20Mixed) }
+
+// verifC20Shape builds an arbitrary tree shape over pts[*next:*next+k] (case split on the
+// size of every left subtree), planes cycling with depth.
+func verifC20Shape(pts Points, next *int, k, depth, dim int) *Node {
+	if k == 0 {
+		return nil
+	}
+	ls := 0
+	if k > 1 {
+		ls = verifChoose("left", 0, k-1)
+	}
+	nd := &Node{Plane: Dim(depth % dim)}
+	nd.Left = verifC20Shape(pts, next, ls, depth+1, dim)
+	nd.Point = pts[*next]
+	*next++
+	nd.Right = verifC20Shape(pts, next, k-1-ls, depth+1, dim)
+	return nd
+}
+
+func verifC20AnyTree() (n int, q Point, pts Points, t *Tree) {
+	n, dim, pts, q := verifC20Setup(verifC20Insert, true)
+	next := 0
+	root := verifC20Shape(pts, &next, n, 0, dim)
+	verifC20Inv(root, 0, dim, false)
+	return n, q, pts, &Tree{Root: root, Count: n}
+}
+
+func VerifC20_KDSearchNearest() {
+	_, q, pts, t := verifC20AnyTree()
+	got, dist := t.Nearest(q)
+	verifAssert(verifC20Stored(got, pts), "Nearest returns one of the stored points")
+	verifAssertEqF(dist, verifC20Dist(got.(Point), q), "Nearest reports the squared distance of the point it returns")
+	for _, p := range pts {
+		verifAssert(dist <= verifC20Dist(p, q), "Nearest distance is minimal over all points")
+	}
+	verifReach("end")
+}
+
+func VerifC20_KDSearchKNearest() {
+	n, q, pts, t := verifC20AnyTree()
+	k := verifChoose("k", 1, n+1)
+	keep := NewNKeeper(k)
+	t.NearestSet(keep, q)
+	want := k
+	if n < k {
+		want = n
+	}
+	verifC20Kept(keep.Heap, want, pts, q)
+	verifReach("end")
+}
+
+func VerifC20_KDSearchRadius() {
+	_, q, pts, t := verifC20AnyTree()
+	r2 := verifFloat("r2")
+	verifAssume(r2 >= 0)
+	keep := NewDistKeeper(r2)
+	t.NearestSet(keep, q)
+	want := 0
+	for _, p := range pts {
+		want += verifIteInt(verifC20Dist(p, q) <= r2, 1, 0)
+	}
+	verifAssert(len(keep.Heap) == want, "within-radius query returns as many points as the brute-force scan")
+	for _, c := range keep.Heap {
+		verifAssert(c.Dist <= r2, "every returned point lies within the radius")
+	}
+	verifC20Kept(keep.Heap, len(keep.Heap), pts, q)
+	verifReach("end")
+}
